@@ -15,7 +15,8 @@ def run_one(mid, pid, kani):
         subprocess.run('git -C /repo archive HEAD | tar -x -C "%s"' % repo, shell=True, check=True)
         if os.path.exists('/repo/Cargo.lock'):
             shutil.copy('/repo/Cargo.lock', repo)
-        p = subprocess.run(['patch', '-p1', '-s', '-i', os.path.join(VERIF, 'seeded', mid, 'patch.diff')], cwd=repo, capture_output=True, text=True)
+        pf = os.path.join(VERIF, 'seeded', mid + '.diff') if mid.startswith('harmless/') else os.path.join(VERIF, 'seeded', mid, 'patch.diff')
+        p = subprocess.run(['patch', '-p1', '-s', '-i', pf], cwd=repo, capture_output=True, text=True)
         if p.returncode != 0:
             return mid, pid, 'PATCH-FAILS', ''
         env = dict(os.environ, VERIF_REPO=repo, VERIF_OUT=os.path.join(d, 'out'))
@@ -33,11 +34,15 @@ def main():
     ap.add_argument('--jobs', type=int, default=4)
     ap.add_argument('--kani', action='store_true')
     ap.add_argument('--out', default=None)
+    ap.add_argument('--harmless', action='store_true', help='run the behaviour-preserving edits of seeded/harmless (expected: no VIOLATION)')
     a = ap.parse_args()
-    ids = a.ids or sorted(os.path.basename(x) for x in glob.glob(os.path.join(VERIF, 'seeded', 'C*-*')))
+    if a.harmless:
+        ids = a.ids or sorted('harmless/' + os.path.basename(x)[:-5] for x in glob.glob(os.path.join(VERIF, 'seeded', 'harmless', '*.diff')))
+    else:
+        ids = a.ids or sorted(os.path.basename(x) for x in glob.glob(os.path.join(VERIF, 'seeded', 'C*-*')))
     jobs = []
     for mid in ids:
-        own = mid.split('-')[0]
+        own = mid.split('_')[1] if a.harmless else mid.split('-')[0]
         for pid in (ALL if a.cross else [own]):
             jobs.append((mid, pid))
     with ThreadPoolExecutor(a.jobs) as ex:
